@@ -192,6 +192,7 @@ func encodeWithRecon(img image.Image, o *webp.EncoderOptions) ([]byte, *verifhoo
 
 func checkC06(args []string) {
 	run := vx.NewRun("C06", "translation_validation", args)
+	activeRun = run
 	run.Rule = "lossy option product (Quality, Method 0..6, presets, Segments, Partitions, Pass, SNS, filter strength/sharpness/type, QMin/QMax, TargetSize, TargetPSNR, sharp YUV, dithering) x sizes incl. non-multiples of 16 x content classes x serial (GOMAXPROCS 1) and pipelined (GOMAXPROCS 8) encoder; the encoder's planes are captured by a hook when EncodeFrame returns; (a) webp.Decode with in-loop deblocking bypassed by a hook must return exactly those planes, (b) with FilterStrength 0 the plain webp.Decode must, and (c) for pictures up to 48x48 the independent TLA+ reader (spec/Vp8.tla via TVVp8) decodes the stream: its pre-filter planes must equal the hook planes and its filtered planes the real decoder's. distinct = distinct (size class, option set, path) cases"
 	run.Assumptions = []string{"the hook copies VP8Encoder.yPlane/uPlane/vPlane when EncodeFrame returns", "opaque pictures (the colour planes do not depend on alpha)"}
 	rng := rand.New(rand.NewSource(run.Seed))
@@ -240,7 +241,7 @@ func checkC06(args []string) {
 		ry, ru, rv := cropPlane(rec.Y, rec.YStride, w, h), cropPlane(rec.U, rec.UVStride, (w+1)/2, (h+1)/2), cropPlane(rec.V, rec.UVStride, (w+1)/2, (h+1)/2)
 		// (a) decode with the loop filter bypassed
 		verifhook.SetNoLoopFilter(true)
-		unf, derr := webp.Decode(bytes.NewReader(out))
+		unf, derr := guardedDecode(out)
 		verifhook.SetNoLoopFilter(false)
 		if derr != nil {
 			run.Violate("decode-fails|"+sig, name+": "+derr.Error(), name)
@@ -262,7 +263,7 @@ func checkC06(args []string) {
 			run.Violate("drift-chroma|"+sig, fmt.Sprintf("%s: decoded Cr before deblocking differs from the encoder's reconstruction, first at %s", name, d), name)
 		}
 		// (b) FilterStrength 0: the plain decode equals the reconstruction
-		full, _ := webp.Decode(bytes.NewReader(out))
+		full, _ := guardedDecode(out)
 		fy, fu, fv, _ := ycbcrPlanes(full)
 		if o.FilterStrength == 0 {
 			if firstDiff(fy, ry, w) != "" || firstDiff(fu, ru, (w+1)/2) != "" || firstDiff(fv, rv, (w+1)/2) != "" {
